@@ -3,6 +3,7 @@ package sim
 import (
 	"bytes"
 	"fmt"
+	"io"
 	"testing"
 
 	"github.com/itchio/wharf/wsync"
@@ -12,7 +13,8 @@ import (
 const maxDataOp = 4 * MiB // "no data operation exceeds the 4MiB limit" (C11)
 
 type wsyncCase struct {
-	AbortFirst int // > 0: first run a diff on the same context that fails after this many bytes
+	ApplyFirst bool // the diff runs on a brand-new context whose first use was applying an operation
+	AbortFirst int  // > 0: first run a diff on the same context that fails after this many bytes
 	BS         int
 	Old        [][]byte
 	New        []byte
@@ -53,6 +55,12 @@ func ctxFor(m map[int]*wsync.Context, bs int) *wsync.Context {
 
 func collectOps(c *wsyncCase, r *SliceReader) ([]RefOp, error, string) {
 	ctx := ctxFor(diffCtxs, c.BS)
+	if c.ApplyFirst {
+		// a context serves both directions: this one has applied an operation before its first diff
+		ctx = wsync.NewContext(c.BS)
+		ctx.ApplySingle(io.Discard, nil, wsync.Operation{Type: wsync.OpData, Data: []byte{1, 2, 3}})
+		Ev.Probe("context_used_for_apply_before_its_first_diff")
+	}
 	var sig []wsync.BlockHash
 	for i, o := range c.Old {
 		err := ctx.CreateSignature(t0ctx, int64(i), bytes.NewReader(o), func(h wsync.BlockHash) error {
@@ -298,6 +306,9 @@ func TestC11Small(t *testing.T) {
 		if rapid.IntRange(0, 3).Draw(rt, "abortfirst") == 0 {
 			c.AbortFirst = rapid.IntRange(1, 12).Draw(rt, "abortafter")
 		}
+		if rapid.IntRange(0, 7).Draw(rt, "applyfirst") == 0 {
+			c.ApplyFirst = true
+		}
 		sl := [][2]uint64{{0, 0}, {uint64(rapid.IntRange(1, 4).Draw(rt, "slmode")), rapid.Uint64().Draw(rt, "slseed")}}
 		if runWsyncCase(rt, c, sl) {
 			return
@@ -326,9 +337,9 @@ func nontrivialCase(c *wsyncCase) bool {
 func TestC11Big(t *testing.T) {
 	Ev.Property = "C11"
 	Prop(t, "C11", func(rt *rapid.T) {
-		bs := rapid.SampledFrom([]int{16, 4 * KiB, 64 * KiB, 64 * KiB, 1000, 65537}).Draw(rt, "bs")
+		bs := rapid.SampledFrom([]int{16, 4 * KiB, 64 * KiB, 64 * KiB, 1000, 65537, 16385, 3 * MiB}).Draw(rt, "bs")
 		nold := rapid.IntRange(1, 3).Draw(rt, "nold")
-		c := &wsyncCase{BS: bs}
+		c := &wsyncCase{BS: bs, ApplyFirst: rapid.IntRange(0, 3).Draw(rt, "applyfirst") == 0}
 		for i := 0; i < nold; i++ {
 			sz := rapid.SampledFrom([]int{0, bs - 1, bs, bs + 1, 3 * bs, 3*bs + 7, 200 * KiB, 10*bs + bs/2}).Draw(rt, "oldsize")
 			if sz < 0 {
